@@ -283,8 +283,11 @@ static cfg_opt_t *cfg_getopt_secidx(cfg_t *cfg, const char *name,
 			/* no more subsections */
 			break;
 
-		if (!len)
+		if (!len) {
+			/* empty component, e.g. a stray '=' or leading '|' */
+			opt = NULL;
 			break;
+		}
 
 		secname = strndup(name, len);
 		if (!secname)
@@ -309,20 +312,27 @@ static cfg_opt_t *cfg_getopt_secidx(cfg_t *cfg, const char *name,
 			title = parse_title(name, &len);
 			if (!title)
 				break;
+			if (name[len] != '\0' && name[len] != '|') {
+				/* garbage after the closing quote */
+				free(title);
+				title = NULL;
+				break;
+			}
 			if (is_set(CFGF_TITLE, opt->flags)) {
 				i = cfg_opt_gettsecidx(opt, title);
 				break;
 			}
 
 			i = strtol(title, &endptr, 0);
-			if (*endptr != '\0')
+			if (endptr == title || *endptr != '\0')
 				i = -1;
 		} while(0);
 
 		if (index)
 			*index = i;
 
-		sec = i >= 0 ? cfg_opt_getnsec(opt, i) : NULL;
+		/* no silent truncation of a huge index to unsigned int */
+		sec = (i >= 0 && (unsigned long)i < cfg_opt_size(opt)) ? cfg_opt_getnsec(opt, i) : NULL;
 		if (!sec && !is_set(CFGF_IGNORE_UNKNOWN, cfg->flags)) {
 			if (opt && !is_set(CFGF_MULTI, opt->flags))
 				cfg_error(cfg, _("no such option '%s'"), secname);
@@ -339,7 +349,14 @@ static cfg_opt_t *cfg_getopt_secidx(cfg_t *cfg, const char *name,
 			return NULL;
 
 		name += len;
-		name += strspn(name, "|");
+		if (*name == '|') {
+			name += strspn(name, "|");
+			if (!*name) {
+				/* stray separator at the end: nothing is addressed */
+				opt = NULL;
+				break;
+			}
+		}
 	}
 
 	if (!index) {
